@@ -1541,7 +1541,9 @@ SRC = {"tree": None}            # ast of api.py of this run (set by check)
 def caches_of(funcs):
     if SRC["tree"] is None:
         return {}
-    return row_group_caches(funcs, SRC["tree"])[0]
+    if SRC.get("caches_for") is not SRC["tree"]:
+        SRC["caches"], SRC["caches_for"] = row_group_caches(funcs, SRC["tree"])[0], SRC["tree"]
+    return SRC["caches"]
 
 
 def resolve_attr(A, oid, name):
